@@ -8,7 +8,16 @@ CB == INSTANCE CircuitBreaker WITH MaxThreshold <- 0, MaxLen <- 0, st <- 0, stre
 CBInit(e) == {CB!St(0, CB!Cfg(e.threshold, e.mock))}
 
 \* event: {"ev":"call","o":..,"el":..,"fwd":..,"res":..,"count":..}
+\* a call that overlaps the following ones: slowB when it starts (the scripts start it while the breaker is
+\* closed: it must be forwarded), slowE when the downstream handler returns: its outcome counts then - a
+\* success resets the counter, a failure adds to it (and is the last failure from then on: the harness
+\* measures the recovery time of later calls from it)
 CBStep(s, e) ==
+    IF e.ev = "slowB" THEN (IF ~CB!Open(s) /\ e.fwd THEN {s} ELSE {})
+    ELSE IF e.ev = "slowE"
+    THEN IF e.res # e.o THEN {}
+         ELSE {[s EXCEPT !.fc = IF e.o = "ok" THEN 0 ELSE IF @ > s.cfg.threshold THEN @ ELSE @ + 1]}
+    ELSE
     {r.st : r \in {r \in CB!CallOutcomes(s, e.o, e.el, FALSE) :
                         /\ r.fwd = e.fwd /\ r.res = e.res
                         /\ e.count = IF r.fwd THEN 1 ELSE 0}}   \* downstream invoked exactly once
